@@ -264,7 +264,7 @@ class EDXMLParserBase(object):
                 'Invalid EDXML structure detected: Could not find the edxml root tag.'
             )
 
-    def __validate_ontology_element(self):
+    def __validate_ontology_element(self, ontology_element):
         if not self.__schema:
             self.__schema = etree.RelaxNG(etree.parse(edxml_schema.SCHEMA_PATH_3_0))
 
@@ -277,9 +277,12 @@ class EDXMLParserBase(object):
         try:
             # We are specifically aiming to find ontology validation problems,
             # so we generate a minimal XML tree containing just ontology elements.
+            # Siblings that follow the ontology element that we are processing may
+            # have been received only partially, so we leave these out as well.
+            num_complete = self.__root_element.index(ontology_element) + 1
             ontology_tree = copy.copy(self.__root_element)
-            for element in ontology_tree.findall('./*'):
-                if element.tag != '{http://edxml.org/edxml}ontology':
+            for index, element in enumerate(ontology_tree.findall('./*')):
+                if element.tag != '{http://edxml.org/edxml}ontology' or index >= num_complete:
                     element.getparent().remove(element)
             self.__schema.assertValid(ontology_tree)
         except (etree.DocumentInvalid, etree.XMLSyntaxError) as validation_error:
@@ -288,8 +291,9 @@ class EDXMLParserBase(object):
             # an ontology element in the tree and try to process it. That
             # will yield a better exception message than the errors
             # produced by the RelaxNG validator.
-            for ontology_element in self.__root_element.iterfind('{http://edxml.org/edxml}ontology'):
-                self.__process_ontology(ontology_element)
+            for element in self.__root_element.iterfind('{http://edxml.org/edxml}ontology'):
+                if self.__root_element.index(element) < num_complete:
+                    self.__process_ontology(element)
 
             # And if we did not identify the problem, we have no choice
             # but throw an exception showing the schema validation error.
@@ -418,7 +422,7 @@ class EDXMLParserBase(object):
                 # Before parsing the ontology information, we validate
                 # the generic structure of the ontology element, using
                 # the RelaxNG schema.
-                self.__validate_ontology_element()
+                self.__validate_ontology_element(elem)
 
                 # We survived XML structure validation. We can proceed
                 # and process the new ontology information.
